@@ -360,6 +360,13 @@ def replay(ctx, rp):
     c = rp.get("case") or {}
     print(json.dumps(c, indent=1))
     print("observed:", rp.get("observed"))
+    if c.get("VERIF_LIBSIG_AT") is not None:
+        shim = dc.build_shim()
+        print("re-run: LD_PRELOAD=%s VERIF_LIBSIG_AT=%s VERIF_LIBSIG_WHEN=%s %s INOVESA_VERIF_TRACE=<file> %s %s   (SIGINT inside library call %s = %s; "
+              "env from lib/vp_build.xdg_env(), under timeout)" % (shim, c.get("VERIF_LIBSIG_AT"), c.get("VERIF_LIBSIG_WHEN"),
+                                                                   "VERIF_LIBSIG_REPEAT=1" if c.get("VERIF_LIBSIG_REPEAT") else "", tg["inovesa"], c.get("cmd"),
+                                                                   c.get("VERIF_LIBSIG_AT"), c.get("function")))
+        return
     print("re-run: INOVESA_VERIF_SIGINT_AT=%s %s %s %s   (env from lib/vp_build.xdg_env(), under timeout)" % (
         c.get("INOVESA_VERIF_SIGINT_AT"), "INOVESA_VERIF_SIGINT_REPEAT=1" if c.get("INOVESA_VERIF_SIGINT_REPEAT") else "",
         tg["inovesa"], c.get("cmd")))
